@@ -451,6 +451,9 @@ def run(tier):
     writer_exposure(ck)
     scheduled_writers(ck, tier)
     races(ck, tier)
+    # a save that fails or is interrupted part-way while the process lives on: the calls after it return the no-disk-cache values
+    from harness.props.c07 import oracle_failed_saves
+    oracle_failed_saves(ck, tier)
     return ck.finish()
 
 
